@@ -563,6 +563,12 @@ def mutateSubsectionOps {τ : Type} (c : FastOps) (pstart pend : Nat) (t : τ)
 
 /-! ### `new_from_ops` / `clear_and_install_ops` -/
 
+/-- the container write for one variable in `clear_and_install_ops` -/
+def installVarWrite (p : Nat) (c : FastOps) (lastTup : Option PRel) (v relv : Nat) : FastOps :=
+  match lastTup with
+  | some pr => c.setNextFor pr.p pr.relv (some ⟨p, relv⟩)
+  | none => c.setVarEnd v (some (⟨p, relv⟩, ⟨p, relv⟩))
+
 /-- one variable of one step of `clear_and_install_ops`: accumulator = (container, last_vars,
 last_rels, previous_for_vars collected so far) -/
 def installVarStep (p : Nat)
@@ -574,10 +580,7 @@ def installVarStep (p : Nat)
   let v := vr.1
   let relv := vr.2
   let lastTup := (zipOpt ((lv[v]?).join) ((lr[v]?).join)).map (fun x => (⟨x.1, x.2⟩ : PRel))
-  let c' := match lastTup with
-    | some pr => c.setNextFor pr.p pr.relv (some ⟨p, relv⟩)
-    | none => c.setVarEnd v (some (⟨p, relv⟩, ⟨p, relv⟩))
-  (c', lv.set v (some p), lr.set v (some relv), acc.2.2.2 ++ [lastTup])
+  (installVarWrite p c lastTup v relv, lv.set v (some p), lr.set v (some relv), acc.2.2.2 ++ [lastTup])
 
 /-- one step of the fold in `clear_and_install_ops` -/
 def installStep (st : FastOps × Option Nat × List (Option Nat) × List (Option Nat)) (po : Nat × Op) :
